@@ -66,9 +66,9 @@ def arrowTimestampToMicros (v : Int) (unit : String) : Int :=
   applyOp (fun x => x) (lookupOp Arc.Generated.C31.arrowTs Arc.Generated.C31.arrowTsDefault unit) v
 
 /-! ## strconv.ParseInt(s, 10, 64) -/
-def isDigit (c : Char) : Bool := decide ('0' ≤ c) && decide (c ≤ '9')
-def digitVal (c : Char) : Nat := c.toNat - 48
-def digitsVal (ds : List Char) : Nat := ds.foldl (fun a c => 10 * a + digitVal c) 0
+def isDigit (c : Char) : Bool := c.isDigit
+/-- value of a digit string (core's `Nat.ofDigitChars`: `foldl (10 * acc + (c - '0'))`) -/
+def digitsVal (ds : List Char) : Nat := Nat.ofDigitChars 10 ds 0
 
 def parseUDigits (ds : List Char) : Option Nat :=
   if ds.isEmpty || !ds.all isDigit then none else some (digitsVal ds)
@@ -141,7 +141,7 @@ inductive Col where
   | float (vs : List Nat)     -- IEEE bits
   | bool (vs : List Bool)
   | str (vs : List Cell)
-deriving Repr, BEq, DecidableEq
+deriving Repr, DecidableEq
 
 def intOK (c : Cell) : Bool := c.isEmpty || (parseInt c).isSome
 def intCell (c : Cell) : Int := (parseInt c).getD 0
@@ -233,18 +233,18 @@ def validateHeader (header : List Cell) (timeCol : Cell) : Option Nat :=
 /-! ## typed batch, storage -/
 inductive Val where
   | null | i (n : Int) | f (bits : Nat) | b (v : Bool) | s (c : Cell)
-deriving Repr, BEq, DecidableEq
+deriving Repr, DecidableEq
 
 structure TCol where
   name : Cell
   col : Col
   validity : Option (List Bool)
-deriving Repr, BEq, DecidableEq
+deriving Repr, DecidableEq
 
 structure Batch where
   time : List Int
   cols : List TCol
-deriving Repr, BEq, DecidableEq
+deriving Repr, DecidableEq
 
 def colVal (c : Col) (i : Nat) : Val :=
   match c with
@@ -261,7 +261,7 @@ def tcolVal (c : TCol) (i : Nat) : Val :=
 structure Row where
   time : Int
   vals : List (Cell × Val)
-deriving Repr, BEq, DecidableEq
+deriving Repr, DecidableEq
 
 /-- ArrowWriter.inferSchema/getSchema skip every column whose name starts with `_`. -/
 def storedCol (c : TCol) : Bool :=
@@ -336,19 +336,19 @@ def importCSV (pf : Cell → Option Nat) (fb : Cell → Option Int) (x : CsvIn) 
 /-! ## Parquet import (from the decoded typed columns) -/
 inductive PKind where
   | i8 | i16 | i32 | i64 | u8 | u16 | u32 | u64 | f32 | f64 | str | bin | fsb | bool | dec | ts (unit : String) | other
-deriving Repr, BEq, DecidableEq
+deriving Repr, DecidableEq
 
 /-- one decoded cell; `orc` = micros of the float / string fallback for a time cell (parameter) -/
 structure PCell where
   v : Val                -- .i (mathematical value) | .f (float64 bits after widening / decimal→float) | .s | .b | .null
   orc : Option Int := none
-deriving Repr, BEq, DecidableEq
+deriving Repr, DecidableEq
 
 structure PCol where
   name : Cell
   kind : PKind
   cells : List PCell
-deriving Repr, BEq, DecidableEq
+deriving Repr, DecidableEq
 
 def isIntKind : PKind → Bool
   | .i8 | .i16 | .i32 | .i64 | .u8 | .u16 | .u32 | .u64 => true
